@@ -1249,6 +1249,66 @@ def rf70(run):
         run.ob(rule, (fn,), bool(calls), {'folder': fn, 'guard calls': len(calls)})
         if not calls:
             run.violation(rule, g, 'unguarded folding', '%s does not consult cycle_phi_p' % fn, line=g.line)
+    # the branch folder: `lt c,i,n; …; bt L,c` => `blt L,i,n` moves the reads of i and n behind the phi copies of the latch
+    # block; the creation of the combined branch is dominated by a cycle_phi_p test of the compare's operands that returns
+    g = gen.func('combine_branch_and_cmp')
+    run.functions_analysed.add(('gen', g.name))
+    gcfg = g.cfg
+    news = [x for x in g.walk() if x['k'] == 'CallExpr' and x.get('callee') == 'MIR_new_insn']
+    if not news:
+        raise F.AnalysisBroken('combine_branch_and_cmp: creation of the combined branch not found')
+    guards = set()
+    covered = set()    # operand positions of the compare that are asked about
+    # an `if (… && cycle_phi_p (…)) return …;`: reaching any part of its condition counts (the test is made for every operand
+    # that is a variable with a definition; the short circuit skips constants and arguments)
+    for st in g.walk():
+        if st['k'] == 'IfStmt' and any(y['k'] == 'CallExpr' and y.get('callee') == 'cycle_phi_p' for y in F.walk(st['c'][0])) \
+                and any(y['k'] == 'ReturnStmt' for y in F.walk(st['c'][1])):
+            ids = {y['i'] for y in F.walk(st['c'][0])}
+            idx_consts, idx_vars = set(), set()
+            for y in F.walk(st['c'][0]):
+                if y['k'] == 'ArraySubscriptExpr' and F.src(F.strip(y['c'][0])).replace(' ', '').endswith('->ops'):
+                    iv_ = F.const_value(F.strip(y['c'][1]))
+                    if iv_ is not None:
+                        idx_consts.add(iv_)
+                    else:
+                        idx_vars.add(F.src(F.strip(y['c'][1])))
+            covered |= idx_consts
+            # the test sits in a counted loop `for (i = a; i <= b; i++)` whose first iteration always runs: its header counts
+            for lp_ in g.walk():
+                if lp_['k'] == 'ForStmt' and any(y is st for y in F.walk(lp_)) and lp_['c'][0] is not None and lp_['c'][1] is not None:
+                    ini, cnd = lp_['c'][0], F.strip(lp_['c'][1])
+                    iv = None
+                    if ini['k'] == 'DeclStmt' and len(ini.get('decls', [])) == 1 and ini['decls'][0].get('init') is not None:
+                        iv = F.const_value(F.strip(ini['decls'][0]['init']))
+                    elif ini['k'] == 'BinaryOperator' and ini['op'] == '=':
+                        iv = F.const_value(F.strip(ini['c'][1]))
+                    if iv is not None and cnd['k'] == 'BinaryOperator' and cnd['op'] in ('<', '<='):
+                        bv = F.const_value(F.strip(cnd['c'][1]))
+                        if bv is not None and (iv < bv or (cnd['op'] == '<=' and iv == bv)):
+                            ids |= {y['i'] for y in F.walk(cnd)}
+                            if F.src(F.strip(cnd['c'][0])) in idx_vars:
+                                covered |= set(range(iv, bv + (1 if cnd['op'] == '<=' else 0)))
+            for B in gcfg.blocks.values():
+                if any(e['i'] in ids for e in B.elems):
+                    guards.add(B.id)
+    for x in news:
+        b = gcfg.block_of(x)
+        reach = gcfg.reachable_from(gcfg.entry, avoid=lambda bl: bl in guards)
+        used = set()
+        for a_ in F.call_args(x):
+            a0 = F.strip(a_)
+            if a0['k'] == 'ArraySubscriptExpr' and F.src(F.strip(a0['c'][0])).replace(' ', '') == 'def_insn->ops':
+                iv_ = F.const_value(F.strip(a0['c'][1]))
+                if iv_ is not None:
+                    used.add(iv_)
+        ok = b not in reach and used <= covered
+        n += 1
+        run.ob(rule, ('combine_branch_and_cmp', x['l']), ok, {'folder': 'combine_branch_and_cmp', 'guard blocks': sorted(guards), 'compare operands moved': sorted(used), 'operands asked about': sorted(covered)})
+        if not ok:
+            run.violation(rule, g, 'unguarded branch folding', 'the combined compare-and-branch is created (line %d) on a path that never asks '
+                          'cycle_phi_p about the operands of the compare: `lt c,i,n; add i,i,1; bt L,c` in a loop becomes `blt L,i,n` behind the '
+                          'phi copy `i = i + 1` of the latch and compares the value of the next iteration' % x['l'], line=x['l'])
     return n
 
 
@@ -1584,3 +1644,54 @@ def rf99(run):
                       'call is neither a use nor a definition of them, so at -O2 `acc = 42; f ();` loses the store (callee reads a stale '
                       'register) and a global tied to a caller-saved register is spilled around the call', line=uses[0]['l'])
     return 2
+
+
+
+# ---------------------------------------------------------------------------------------------
+# RF114: renaming shortcut of make_conventional_ssa: lost copy and swap problems
+# ---------------------------------------------------------------------------------------------
+
+def rf114(run):
+    from lib import printexec as PE
+    rule = 'RF114'
+    run.rule(rule, 'make_conventional_ssa renames a phi result to the register set up by the moves at the ends of the predecessors only when '
+                   'no use can read it behind those moves.  The scan over the uses of the result, evaluated abstractly for model uses, '
+                   'stops (no renaming) for a use in another block, for a branch of the same block (lost copy) and for another phi of the '
+                   'same block (swap problem: its move is added after the move that overwrote the renamed register); it goes on for an '
+                   'ordinary instruction of the block')
+    gen = run.tu('gen')
+    f = gen.func('make_conventional_ssa')
+    run.functions_analysed.add(('gen', f.name))
+    loops = [l for l in f.walk() if l['k'] == 'ForStmt' and l['c'][2] is not None and 'next_use' in F.src(l['c'][2])]
+    if not loops:
+        raise F.AnalysisBroken('make_conventional_ssa: the scan over the uses of the phi result was not found')
+    lp = loops[0]
+    ifs = [x for x in F.walk(lp['c'][3]) if x['k'] == 'IfStmt' and any(y['k'] == 'BreakStmt' for y in F.walk(x))]
+    if not ifs:
+        raise F.AnalysisBroken('make_conventional_ssa: the stop condition of the use scan was not found')
+    cond = ifs[0]['c'][0]
+    codes = dict(gen.enum('MIR_insn_code_t'))
+    cases = [('use in another block', {'se->use->bb': 6, 'bb': 5, 'se->use->insn->code': codes['MIR_ADD'], 'se->use': 20, 'bb_insn': 10}, True),
+             ('branch of the same block', {'se->use->bb': 5, 'bb': 5, 'se->use->insn->code': codes['MIR_BLT'], 'se->use': 20, 'bb_insn': 10}, True),
+             ('indirect jump of the same block', {'se->use->bb': 5, 'bb': 5, 'se->use->insn->code': codes['MIR_JMPI'], 'se->use': 20, 'bb_insn': 10}, True),
+             ('another phi of the same block', {'se->use->bb': 5, 'bb': 5, 'se->use->insn->code': codes['MIR_PHI'], 'se->use': 20, 'bb_insn': 10}, True),
+             ('ordinary instruction of the same block', {'se->use->bb': 5, 'bb': 5, 'se->use->insn->code': codes['MIR_ADD'], 'se->use': 20, 'bb_insn': 10}, False)]
+    n = 0
+    for what, env, want in cases:
+        ex = PE.PrintExec(gen, {}, {}, {})
+        try:
+            v = ex.val(cond, dict(env))
+        except F.AnalysisBroken as e_:
+            raise F.AnalysisBroken('make_conventional_ssa: stop condition not evaluable (%s)' % e_)
+        if v is None:
+            raise F.AnalysisBroken('make_conventional_ssa: stop condition `%s` not evaluable for %s' % (F.src(cond)[:60], what))
+        n += 1
+        ok = bool(v) == want
+        run.ob(rule, (what,), ok, {'use': what, 'scan stops': bool(v), 'expected': want})
+        if not ok:
+            run.violation(rule, f, 'renaming with %s' % what, 'the use scan %s for a use that is %s: %s' %
+                          ('goes on' if want else 'stops', what,
+                           'the phi result is renamed although this use reads it behind the moves added at the end of the block, so it sees the '
+                           'value of the next iteration (two phis that exchange their values get the same value)' if want else
+                           'the renaming shortcut is lost for ordinary code'), line=ifs[0]['l'])
+    return n
